@@ -113,6 +113,24 @@ def run_cell(prop, tier, seed, hash_seed, subset, workers, task_timeout,
 def oneshot_main(args):
     """Run in a fresh interpreter: shrink or replay one explicit spec."""
     import pgradd                      # noqa
+    if args.mode == 'fresh':
+        with open(args.spec) as f:
+            early = json.load(f).get('early_load')
+        if early:
+            # the documented slip "loaded before importing the module that
+            # registers the property sets": only a warning and a library
+            # without data; the import and a second load follow
+            import contextlib
+            import io
+            import warnings
+            from pgradd.GroupAdd.Library import GroupLibrary
+            with warnings.catch_warnings(), \
+                    contextlib.redirect_stdout(io.StringIO()):
+                warnings.simplefilter('ignore')
+                try:
+                    GroupLibrary.Load(early)
+                except Exception:
+                    pass
     import pgradd.ThermoChem           # noqa
     mod = load_module(args.prop)
     if hasattr(mod, 'worker_init') and args.mode != 'fresh':
@@ -352,7 +370,7 @@ def run_fresh(prop, docs, hash_seed=7, parallel=8):
                 cmd = [PY, os.path.join(HERE, 'run_check.py'), '--oneshot',
                        'fresh', prop, '--spec', files[i]]
                 env = child_env(hash_seed)
-                env.update(doc.get('env') or {})
+                env.update(docs[i].get('env') or {})
                 p = subprocess.Popen(cmd, env=env, cwd=HERE,
                                      stdout=subprocess.PIPE,
                                      stderr=subprocess.DEVNULL, text=True)
